@@ -151,6 +151,18 @@ def enum_units(tier, seed):
     extra.append([org, mp, mj, {"k": "macro", "n": "m_outer", "ps": ["p_dest"], "b": [{"k": "call", "n": "m_j", "args": [["id", "lb_later"]]}, db(["id", "p_dest"])]},
                   {"k": "call", "n": "m_outer", "args": [L(3)]}, lab("lb_later"), db(L(0x60))])
     extra.append([org, mp, mj, {"k": "for", "v": "p_dest", "lo": L(1), "hi": L(3), "b": [{"k": "call", "n": "m_j", "args": [["id", "lb_later"]]}, db(["id", "p_dest"])]}, lab("lb_later"), db(L(0x60))])
+    # a name that an inner scope has already looked up while the program was expanded (an .if with empty branches, an argument of a
+    # macro that ignores it) and that the enclosing scope defines as a label further down: the inner uses that are evaluated
+    # later (data, sized operands) refer to that label, not to the constant of the same name further out
+    me = {"k": "macro", "n": "m_e", "ps": ["p_e"], "b": [db(L(0xE0))]}
+    for early in ([{"k": "if", "c": ["id", "kx_w"], "t": [], "e": []}], [{"k": "call", "n": "m_e", "args": [["id", "kx_w"]]}], []):
+        for nest in (1, 2):
+            inner = early + [dl("kx_w"), {"k": "ins", "m": "lda", "shape": ["", None, None], "sfx": "w", "e": ["id", "kx_w"]}]
+            body = inner
+            for _ in range(nest):
+                body = [{"k": "block", "b": body}]
+            extra.append([{"k": "const", "n": "kx_w", "e": L(2), "eager": True}, org, me, {"k": "block", "b": body + [db(L(0x5A)), lab("kx_w"), db(L(0x5B))]}, dl("kx_w")])
+            extra.append([{"k": "const", "n": "kx_w", "e": L(2), "eager": True}, org, me, {"k": "block", "b": body + [db(L(0x5A)), {"k": "const", "n": "kx_w", "e": L(0x4321), "eager": False}]}, dl("kx_w")])
     for i, ir in enumerate(extra):
         cases.append({"rom": "low", "files": {}, "ir": ir, "twin_seed": 100 + i})
     return {"units": [{"cases": cases[i::8]} for i in range(8)], "exhaustive": False}
